@@ -157,6 +157,24 @@ Theorem C10_allocate_terminates : forall c s now busy o,
 Proof. exact step_never_fuel. Qed.
 Print Assumptions C10_allocate_terminates.
 
+(** Expiry edge: at the very instant of its deadline a dynamic lease is no
+    longer reported as active and not yet recycled; one nanosecond later it
+    is recycled (both comparisons in the code are strict). *)
+Theorem C10_deadline_instant : forall l s,
+  l_static l = false -> In l (leases s) ->
+  expired (l_exp l) l = false /\ ~ In l (active (l_exp l) s) /\ expired (l_exp l + 1) l = true.
+Proof. exact deadline_instant. Qed.
+Print Assumptions C10_deadline_instant.
+
+(** Pool exhausted: the lease handed on is the first expired dynamic lease
+    of the table, never a static one, never one that has not expired. *)
+Theorem C10_recycled_is_first_expired : forall c now mac s i,
+  next_ip c s = None -> snd (reserve c now mac s) = RsAt i ->
+  exists l, nth_error (leases s) i = Some l /\ expired now l = true /\
+    forall j l', (j < i)%nat -> nth_error (leases s) j = Some l' -> expired now l' = false.
+Proof. exact recycled_is_first_expired. Qed.
+Print Assumptions C10_recycled_is_first_expired.
+
 (** The configurations the server runs with are the ones Validate accepts
     (start < end, gateway outside the pool, both ends inside the subnet: the
     harness compares [valid_conf_b (conf_of ...)] with the real Validate on
